@@ -4,6 +4,7 @@ package zed
 
 import (
 	"encoding/binary"
+	"unicode/utf8"
 
 	"github.com/brimdata/super/internal/verif"
 	"github.com/brimdata/super/zcode"
@@ -100,6 +101,36 @@ func VerifH_C11_O3_typevalue_counts() {
 	}
 	// only an enum with a (wrapped) non-positive count can be accepted here
 	verif.Assert(typ != nil, "accepted-type-non-nil")
+	verif.Reach("accept")
+}
+
+// verif:desc C11-O3c type names in type values: a name definition whose name is not valid UTF-8 or is the name of a primitive type is rejected (LookupTypeNamed's error is not dropped), anything accepted is a usable named type carrying exactly that name, and a reference to it then resolves to the same type; no panic escapes.
+// verif:bounds tv = [namedef, len, name bytes, int64] followed by [nameref, len, name bytes]; name: every byte string of length 0..2 (all 256 byte values, so "ip" and invalid UTF-8 are included)
+// verif:outside longer names (the other primitive names are 4+ letters); names inside nested types
+// verif:unwind 24
+func VerifH_C11_O3_typevalue_names() {
+	name := verif.Bytes("name", 2)
+	tv := append([]byte{TypeValueNameDef, byte(len(name))}, name...)
+	tv = append(tv, IDInt64)
+	c := NewContext()
+	typ, rest := c.DecodeTypeValue(tv)
+	valid := utf8.Valid(name) && string(name) != "ip"
+	if rest == nil {
+		verif.Assert(!valid, "valid-name-rejected")
+		verif.Reach("reject")
+		return
+	}
+	verif.Assert(valid, "invalid-name-accepted")
+	named, ok := typ.(*TypeNamed)
+	verif.Assert(ok && named != nil, "accepted-is-named-type")
+	if !ok || named == nil {
+		return
+	}
+	verif.Assert(named.Name == string(name) && named.Type == TypeInt64 && len(rest) == 0, "named-type-contents")
+	verif.Assert(vTouchType(typ) == len(tv), "accepted-type-encodes")
+	ref := append([]byte{TypeValueNameRef, byte(len(name))}, name...)
+	typ2, rest2 := c.DecodeTypeValue(ref)
+	verif.Assert(rest2 != nil && typ2 == typ, "reference-resolves")
 	verif.Reach("accept")
 }
 
